@@ -138,6 +138,9 @@ impl Property for C01 {
                 };
                 let got = bridge::read(&xot, re)?;
                 same_tree(&got, &want, Cmp::content()).map_err(|e| format!("output {:?} reparses differently: {}", s, e))?;
+                // second, independent reading of the same output (serializer and parser defects cannot cancel here)
+                let ind = if as_doc { crate::indep::xmltok::read_xml_document(&s) } else { crate::indep::xmltok::read_document(&s) }.map_err(|e| format!("output {:?} is not well-formed for an independent reader: {}", s, e))?;
+                same_tree(&ind, &want, Cmp::content()).map_err(|e| format!("output {:?} read by an independent reader differs: {}", s, e))?;
                 let orig_cmp = match &doc {
                     ANode::Document(_) => root,
                     _ => root,
